@@ -1,6 +1,6 @@
 ------------------------------- MODULE PySeq -------------------------------
 (* Python list index semantics over TLA+ sequences (1-based), written from the Python
-   language reference (sequence types, slicing with step 1).  Indices handed to these
+   language reference (sequence types, slicing with step 1 and extended slices).  Indices handed to these
    operators are Python indices (0-based, negative = from the end). *)
 EXTENDS Integers, Sequences
 
@@ -24,6 +24,26 @@ SliceHi(s, a, b)   == Max2(Clip(b, Len(s)), SliceLo(s, a))
 SliceOf(s, a, b)   == SubSeq(s, SliceLo(s, a) + 1, SliceHi(s, a, b))
 Splice(s, a, b, xs) == Take(s, SliceLo(s, a)) \o xs \o Drop(s, SliceHi(s, a, b))
 Rev(s)             == [k \in 1..Len(s) |-> s[Len(s) + 1 - k]]
+\* extended slices s[a:b:k], k # 0 (language reference 3.3.7 / slice.indices): a and b may be Open (omitted)
+Open == 99
+XStart(a, k, n) == IF k > 0 THEN (IF a = Open THEN 0 ELSE Clip(a, n))
+                   ELSE (IF a = Open THEN n - 1 ELSE IF a < 0 THEN Max2(a + n, -1) ELSE Min2(a, n - 1))
+XStop(b, k, n)  == IF k > 0 THEN (IF b = Open THEN n ELSE Clip(b, n))
+                   ELSE (IF b = Open THEN -1 ELSE IF b < 0 THEN Max2(b + n, -1) ELSE Min2(b, n - 1))
+XCount(lo, hi, k) == IF k > 0 THEN (IF hi > lo THEN (hi - lo - 1) \div k + 1 ELSE 0)
+                     ELSE (IF lo > hi THEN (lo - hi - 1) \div (0 - k) + 1 ELSE 0)
+\* the selected positions (1-based), in selection order
+XPos(s, a, b, k) == LET n == Len(s) lo == XStart(a, k, n) hi == XStop(b, k, n) IN
+                    [t \in 1..XCount(lo, hi, k) |-> lo + (t - 1) * k + 1]
+XSel(s, a, b, k) == LET ps == XPos(s, a, b, k) IN [t \in 1..Len(ps) |-> s[ps[t]]]
+XDel(s, a, b, k) == LET ps == XPos(s, a, b, k)
+                        I == {ps[t] : t \in 1..Len(ps)}
+                        F[i \in 0..Len(s)] == IF i = 0 THEN <<>> ELSE IF i \in I THEN F[i - 1] ELSE Append(F[i - 1], s[i])
+                    IN F[Len(s)]
+\* assignment to an extended slice needs exactly as many values as positions
+XSet(s, a, b, k, xs) == LET ps == XPos(s, a, b, k) IN
+                        [p \in 1..Len(s) |-> IF \E t \in 1..Len(ps) : ps[t] = p
+                                              THEN xs[CHOOSE t \in 1..Len(ps) : ps[t] = p] ELSE s[p]]
 FirstIndexOf(s, x) == IF \E k \in 1..Len(s) : s[k] = x
                       THEN (CHOOSE k \in 1..Len(s) : s[k] = x /\ \A j \in 1..(k - 1) : s[j] # x) - 1
                       ELSE -1                                \* 0-based, -1 = absent
